@@ -63,50 +63,61 @@ theorem mulLoop_find {P s : Nat} : ∀ (fuel k j : Nat), k ≤ j → j ≤ s →
       simp only [hnk, if_false]
       exact ih (k + 1) j (by omega) hjs (by omega) hfit (fun i h1 h2 => hmin i (by omega) h2)
 
-/-- value-exactness of `price × n` under the magnitude hypothesis: the product comes back
-    as the same rational number -/
-theorem mul_nat_exact {p t : Dec} {n : Nat} (hs : p.scale ≤ 28) (hex : exactMul p n = true)
-    (ht : mul p (ofNat n) = some t) :
-    t.mant * 10 ^ p.scale = p.mant * n * 10 ^ t.scale := by
+/-- general value-exactness of `checked_mul`: if the exact product of the mantissas is a
+    multiple of `10^z` for a `z` the rescale loop can reach (`s - 28 ≤ z ≤ s`) and either the
+    quotient fits in 96 bits or `z = s`, then the result is the same rational number -/
+theorem mul_exact_gen {a b t : Dec} (z : Nat) (hz1 : a.scale + b.scale - 28 ≤ z)
+    (hz2 : z ≤ a.scale + b.scale) (hd : 10 ^ z ∣ a.mant * b.mant)
+    (hfit : a.mant * b.mant / 10 ^ z < LIM ∨ z = a.scale + b.scale)
+    (ht : mul a b = some t) :
+    t.mant * 10 ^ (a.scale + b.scale) = a.mant * b.mant * 10 ^ t.scale := by
   unfold mul at ht
-  by_cases h0 : p.mant = 0 ∨ (ofNat n).mant = 0
+  by_cases h0 : a.mant = 0 ∨ b.mant = 0
   · simp only [h0, if_true, Option.some.injEq] at ht
     subst ht
-    rcases h0 with h0 | h0
-    · simp [h0]
-    · simp [ofNat] at h0; simp [h0]
+    rcases h0 with h0 | h0 <;> simp [h0]
   · simp only [h0, if_false] at ht
-    simp only [ofNat, Nat.add_zero] at ht h0
-    have hk0 : p.scale - 28 = 0 := by omega
-    rw [hk0] at ht
-    cases hl : mulLoop (p.mant * n) p.scale (p.scale + 2) 0 with
+    cases hl : mulLoop (a.mant * b.mant) (a.scale + b.scale) (a.scale + b.scale + 2)
+        (a.scale + b.scale - 28) with
     | none => simp [hl] at ht
     | some r =>
       obtain ⟨m, sc⟩ := r
       simp only [hl, Option.some.injEq] at ht
       subst ht
-      obtain ⟨j, _, hjs, hm, hsc, _, hmin⟩ := mulLoop_some _ _ hl
+      obtain ⟨j, hkj, hjs, hm, hsc, _, hmin⟩ := mulLoop_some _ _ hl
       simp only
-      unfold exactMul at hex
-      simp only [Bool.and_eq_true, Bool.or_eq_true, decide_eq_true_eq, beq_iff_eq] at hex
-      rcases hex.2 with hlt | hdiv
-      · -- the product fits at once: j = 0
-        have hj : j = 0 := by
-          by_cases hj : j = 0
-          · exact hj
-          · exact absurd (by rw [Nat.pow_zero, rhe_one]; exact hlt) (hmin 0 (Nat.le_refl _) (by omega))
-        subst hj
-        rw [hm, hsc, Nat.pow_zero, rhe_one]; simp
-      · -- the product is a whole multiple of 10^scale: every rescale step is exact
-        have hd : 10 ^ j ∣ p.mant * n :=
-          Nat.dvd_trans (Nat.pow_dvd_pow 10 hjs) (Nat.dvd_of_mod_eq_zero hdiv)
-        rw [hm, hsc, rhe_exact (pow10_pos j) hd]
-        obtain ⟨q, hq⟩ := hd
-        rw [hq, Nat.mul_div_cancel_left _ (pow10_pos j)]
-        have : 10 ^ p.scale = 10 ^ j * 10 ^ (p.scale - j) := by
-          rw [← Nat.pow_add]; congr 1; omega
-        rw [this, Nat.mul_assoc]
-        exact Nat.mul_left_comm _ _ _
+      -- the loop stops at some j ≤ z, where the division is exact
+      have hjz : j ≤ z := by
+        rcases hfit with hfit | hzs
+        · by_cases hjz : j ≤ z
+          · exact hjz
+          · exfalso
+            have := hmin z hz1 (by omega)
+            rw [rhe_exact (pow10_pos z) hd] at this
+            exact this hfit
+        · omega
+      have hdj : 10 ^ j ∣ a.mant * b.mant := Nat.dvd_trans (Nat.pow_dvd_pow 10 hjz) hd
+      rw [hm, hsc, rhe_exact (pow10_pos j) hdj]
+      obtain ⟨q, hq⟩ := hdj
+      rw [hq, Nat.mul_div_cancel_left _ (pow10_pos j)]
+      have : 10 ^ (a.scale + b.scale) = 10 ^ j * 10 ^ (a.scale + b.scale - j) := by
+        rw [← Nat.pow_add]; congr 1; omega
+      rw [this]; ac_rfl
+
+/-- value-exactness of `price × n` under the magnitude hypothesis: the product comes back
+    as the same rational number -/
+theorem mul_nat_exact {p t : Dec} {n : Nat} (hs : p.scale ≤ 28) (hex : exactMul p n = true)
+    (ht : mul p (ofNat n) = some t) :
+    t.mant * 10 ^ p.scale = p.mant * n * 10 ^ t.scale := by
+  unfold exactMul at hex
+  simp only [Bool.and_eq_true, Bool.or_eq_true, decide_eq_true_eq, beq_iff_eq] at hex
+  rcases hex.2 with hlt | hdiv
+  · have := mul_exact_gen (a := p) (b := ofNat n) 0 (by simp [ofNat]; omega) (by omega)
+      (by simp) (Or.inl (by simpa [ofNat] using hlt)) ht
+    simpa [ofNat] using this
+  · have := mul_exact_gen (a := p) (b := ofNat n) p.scale (by simp [ofNat]) (by simp [ofNat])
+      (by simpa [ofNat] using Nat.dvd_of_mod_eq_zero hdiv) (Or.inr (by simp [ofNat])) ht
+    simpa [ofNat] using this
 
 /-! ### parsed decimals have a scale of at most 28 -/
 
@@ -176,6 +187,91 @@ theorem parse_scale {str : String} {p : Dec} (h : parse str = some p) : p.scale 
     · exact parseGo_scale _ _ _ _ _ _ _ (fun _ => by omega) (by omega) hf
     · exact parseGo_scale _ _ _ _ _ _ _ (fun _ => by omega) (by omega) hf
 
+/-! ### parsed decimals have a mantissa below 2^96 -/
+
+theorem parseGo_mant : ∀ (cs : List Char) (m s : Nat) (point has neg : Bool) (d : Dec),
+    m < LIM → parseGo cs m s point has neg = .ok d → d.mant < LIM := by
+  intro cs
+  induction cs with
+  | nil =>
+    intro m s point has neg d hm h
+    unfold parseGo at h
+    by_cases hh : has = true
+    · simp [hh] at h; subst h; exact hm
+    · simp [hh] at h
+  | cons c rest ih =>
+    intro m s point has neg d hm h
+    unfold parseGo at h
+    by_cases hd : c.isDigit = true
+    · simp only [hd, if_true] at h
+      by_cases hov : m * 10 + (c.toNat - 48) ≥ LIM
+      · simp only [hov, if_true] at h; split at h <;> cases h
+      · simp only [hov, if_false] at h
+        by_cases hu : (point && decide ((if point = true then s + 1 else 0) ≥ 28) && !rest.isEmpty) = true
+        · simp only [hu, if_true] at h; cases h
+        · simp only [hu] at h
+          exact ih _ _ _ _ _ _ (by omega) h
+    · simp only [hd] at h
+      by_cases hdot : c = '.'
+      · simp only [hdot, if_true] at h
+        by_cases hp : point = true
+        · simp [hp] at h
+        · simp only [hp] at h
+          exact ih _ _ _ _ _ _ hm h
+      · simp only [hdot, if_false] at h
+        by_cases hus : c = '_'
+        · simp only [hus, if_true] at h
+          by_cases hh : has = true
+          · simp only [hh, if_true] at h
+            exact ih _ _ _ _ _ _ hm h
+          · simp [hh] at h
+        · simp [hus] at h
+
+theorem parse_mant {str : String} {p : Dec} (h : parse str = some p) : p.mant < LIM := by
+  unfold parse at h
+  cases hf : parseFull str with
+  | bad => simp [hf] at h
+  | unmodelled => simp [hf] at h
+  | ok d =>
+    simp only [hf, Option.some.injEq] at h
+    subst h
+    unfold parseFull at hf
+    have hl : 0 < LIM := by decide
+    split at hf
+    · cases hf
+    · exact parseGo_mant _ _ _ _ _ _ _ hl hf
+    · exact parseGo_mant _ _ _ _ _ _ _ hl hf
+    · exact parseGo_mant _ _ _ _ _ _ _ hl hf
+
+/-- the price-precision check is exact: an accepted price times `10^precision` is whole -/
+theorem badPrecision_exact {p : Dec} {prec : Nat} (hs : p.scale ≤ 28) (hm : p.mant < LIM)
+    (h : badPrecision p prec = some false) : (p.mant * 10 ^ prec) % 10 ^ p.scale = 0 := by
+  unfold badPrecision at h
+  cases hmul : mul p (ofNat (10 ^ prec)) with
+  | none => simp [hmul] at h
+  | some t =>
+    simp only [hmul, Option.some.injEq] at h
+    have hv : t.mant * 10 ^ p.scale = p.mant * 10 ^ prec * 10 ^ t.scale := by
+      by_cases hle : prec ≤ p.scale
+      · have := mul_exact_gen (a := p) (b := ofNat (10 ^ prec)) prec (by simp [ofNat]; omega)
+          (by simpa [ofNat] using hle) (by simp [ofNat]; exact Nat.dvd_mul_left _ _)
+          (Or.inl (by simp only [ofNat]; rw [Nat.mul_div_cancel _ (pow10_pos _)]; exact hm)) hmul
+        simpa [ofNat] using this
+      · have := mul_exact_gen (a := p) (b := ofNat (10 ^ prec)) p.scale (by simp [ofNat])
+          (by simp [ofNat])
+          (by simp only [ofNat]
+              exact Nat.dvd_trans (Nat.pow_dvd_pow 10 (by omega)) (Nat.dvd_mul_left _ _))
+          (Or.inr (by simp [ofNat])) hmul
+        simpa [ofNat] using this
+    unfold hasFract at h
+    simp only [bne_eq_false_iff_eq] at h
+    obtain ⟨q, hq⟩ := Nat.dvd_of_mod_eq_zero h
+    have hP : q * 10 ^ p.scale = p.mant * 10 ^ prec := by
+      have : q * 10 ^ p.scale * 10 ^ t.scale = p.mant * 10 ^ prec * 10 ^ t.scale := by
+        rw [← hv, hq]; ac_rfl
+      exact Nat.eq_of_mul_eq_mul_right (pow10_pos _) this
+    rw [← hP]; exact Nat.mul_mod_left _ _
+
 /-! ### `price × n` through `Dec.total` -/
 
 theorem total_inv {p t : Dec} {n : Nat} (h : total p n = .ok t) :
@@ -223,5 +319,89 @@ theorem total_exact {p t : Dec} {n g : Nat} (hs : p.scale ≤ 28) (hneg : p.neg 
     simp [← hP]
   · unfold product
     rw [← hu, hq, ← hP, Nat.mul_div_cancel_left _ (pow10_pos _), Nat.mul_div_cancel _ (pow10_pos _)]
+
+/-! ### `rate × amount`, rounded half away from zero -/
+
+theorem half_lt (d : Nat) (hd : 0 < d) : d / (2 * d) = 0 := by
+  apply Nat.div_eq_of_lt; omega
+
+theorem mul_neg_flag {a b t : Dec} (ht : mul a b = some t) :
+    t.neg = (if a.mant = 0 ∨ b.mant = 0 then false else (a.neg != b.neg)) := by
+  unfold mul at ht
+  by_cases h0 : a.mant = 0 ∨ b.mant = 0
+  · simp only [h0, if_true, Option.some.injEq] at ht; subst ht; simp only [h0, if_true]
+  · simp only [h0, if_false] at ht ⊢
+    cases hl : mulLoop (a.mant * b.mant) (a.scale + b.scale) (a.scale + b.scale + 2)
+        (a.scale + b.scale - 28) with
+    | none => simp [hl] at ht
+    | some r => simp only [hl, Option.some.injEq] at ht; subst ht; rfl
+
+/-- the decimal pipeline computes the fee `rate × amount` exactly (under the magnitude
+    hypothesis on `rate × amount`): the result is the admissible fee of exact arithmetic.
+    `g` is any representation of the whole number `gross` as the contract produces it. -/
+theorem rateFee_exact {r g : Dec} {gross n : Nat} (hrs : r.scale ≤ 28)
+    (hg : g.mant = gross * 10 ^ g.scale) (hgneg : g.neg = false)
+    (hex : exactMul r gross = true) (h : rateFee r g = .ok n) :
+    admissibleFee r gross = some n := by
+  unfold rateFee at h
+  simp only [Res.bind_eq_ok, orErr_eq_ok] at h
+  obtain ⟨p, hp, hu⟩ := h
+  have hneg := mul_neg_flag hp
+  unfold exactMul at hex
+  simp only [Bool.and_eq_true, Bool.or_eq_true, decide_eq_true_eq, beq_iff_eq] at hex
+  -- value of the product
+  have hv : p.mant * 10 ^ (r.scale + g.scale) = r.mant * g.mant * 10 ^ p.scale := by
+    have hPd : r.mant * g.mant = r.mant * gross * 10 ^ g.scale := by rw [hg]; ac_rfl
+    rcases hex.2 with hlt | hdiv
+    · refine mul_exact_gen g.scale (by omega) (by omega) ?_ (Or.inl ?_) hp
+      · rw [hPd]; exact Nat.dvd_mul_left _ _
+      · rw [hPd, Nat.mul_div_cancel _ (pow10_pos _)]; exact hlt
+    · refine mul_exact_gen (r.scale + g.scale) (by omega) (by omega) ?_ (Or.inr rfl) hp
+      rw [hPd, Nat.pow_add]
+      exact Nat.mul_dvd_mul (Nat.dvd_of_mod_eq_zero hdiv) (Nat.dvd_refl _)
+  -- the rounded magnitude is the exact fee
+  have hm : (2 * p.mant + 10 ^ p.scale) / (2 * 10 ^ p.scale) = exactFee r gross := by
+    unfold exactFee
+    have e1 : (2 * p.mant + 10 ^ p.scale) / (2 * 10 ^ p.scale) =
+        (10 ^ (r.scale + g.scale) * (2 * p.mant + 10 ^ p.scale)) /
+          (10 ^ (r.scale + g.scale) * (2 * 10 ^ p.scale)) :=
+      (Nat.mul_div_mul_left _ _ (pow10_pos _)).symm
+    have e2 : (2 * r.mant * gross + 10 ^ r.scale) / (2 * 10 ^ r.scale) =
+        (10 ^ (g.scale + p.scale) * (2 * r.mant * gross + 10 ^ r.scale)) /
+          (10 ^ (g.scale + p.scale) * (2 * 10 ^ r.scale)) :=
+      (Nat.mul_div_mul_left _ _ (pow10_pos _)).symm
+    rw [e1, e2]
+    have n1 : 10 ^ (r.scale + g.scale) * (2 * p.mant + 10 ^ p.scale) =
+        10 ^ (g.scale + p.scale) * (2 * r.mant * gross + 10 ^ r.scale) := by
+      have : 10 ^ (r.scale + g.scale) * (2 * p.mant) = 2 * (p.mant * 10 ^ (r.scale + g.scale)) := by ac_rfl
+      rw [Nat.mul_add, this, hv, hg, Nat.mul_add, Nat.pow_add, Nat.pow_add]; ac_rfl
+    have n2 : 10 ^ (r.scale + g.scale) * (2 * 10 ^ p.scale) =
+        10 ^ (g.scale + p.scale) * (2 * 10 ^ r.scale) := by
+      rw [Nat.pow_add, Nat.pow_add]; ac_rfl
+    rw [n1, n2]
+  unfold toU128 rha0 at hu
+  simp only [hm] at hu
+  unfold admissibleFee
+  simp only
+  by_cases hz : r.mant = 0 ∨ g.mant = 0
+  · -- a zero operand: the fee is zero
+    have hf0 : exactFee r gross = 0 := by
+      unfold exactFee
+      rcases hz with hz | hz
+      · simp [hz, half_lt _ (pow10_pos _)]
+      · have : gross = 0 := by
+          rw [hg] at hz
+          rcases Nat.mul_eq_zero.mp hz with h | h
+          · exact h
+          · exact absurd h (Nat.ne_of_gt (pow10_pos _))
+        simp [this, half_lt _ (pow10_pos _)]
+    simp [hf0] at hu ⊢
+    exact hu
+  · simp only [hz, if_false, hgneg, Bool.bne_false] at hneg
+    rw [hneg] at hu
+    by_cases hn : (r.neg && exactFee r gross != 0) = true
+    · simp [hn] at hu
+    · simp only [hn] at hu ⊢
+      simpa using hu
 
 end Ats.Dec
